@@ -40,6 +40,7 @@ Clauses(e) ==
    <<"C16", "WrongIdNoEffect", /\ (Has(e, "confirm") /\ e.confirmId = "X") => Ans(e, "confirm") \in {"err", "locked"}
                                /\ (Has(e, "cancel") /\ e.cancelId = "X") => Ans(e, "cancel") \in {"err", "locked"}>>,
    <<"C16", "NewerSurvives", (Ans(e, "set2") = "ok" /\ ~T2Resolved(e)) => (e.open = "T2" /\ e.armed /\ e.t2present)>>,
+   <<"C16", "NotRefusedByWaiter", e.refused = "">>,
    <<"C16", "ConformsToTxnImpl", (e.drift = "" /\ ~e.free) =>
          /\ \A p \in {"confirm", "cancel", "set2"} : Has(e, p) => Ans(e, p) = e.exp.ret[p]
          /\ e.rollbacks = e.exp.rollbacks
